@@ -4,6 +4,7 @@ mod calls;
 mod common;
 mod dump;
 mod gen;
+mod matrix;
 
 use std::collections::HashMap;
 
@@ -71,6 +72,10 @@ fn main() {
             let f = calls::Filter { mks, ans, flav };
             let st = calls::run(&out, shards, &fam, seed, scale, &f);
             println!("{{\"contexts\":{},\"events\":{}}}", st.contexts, st.events);
+        }
+        "matrix" => {
+            let n = matrix::run(&out);
+            println!("{{\"events\":{}}}", n);
         }
         other => {
             eprintln!("unknown subcommand {}", other);
